@@ -145,10 +145,11 @@ class SourceLocation2D(_AbstractDistribution):
         misfit_grad = (t_calc - self.observed_data) / (self.data_std**2)
 
         # Applying chain rule
-        gx = _numpy.sum(misfit_grad * data_grad_x, axis=1)
-        gz = _numpy.sum(misfit_grad * data_grad_z, axis=1)
-        gT = _numpy.sum(misfit_grad * data_grad_T, axis=1)
-        gv = _numpy.sum(misfit_grad * data_grad_v)
+        # Missing observations (NaN) don't contribute, as in the misfit
+        gx = _numpy.nansum(misfit_grad * data_grad_x, axis=1)
+        gz = _numpy.nansum(misfit_grad * data_grad_z, axis=1)
+        gT = _numpy.nansum(misfit_grad * data_grad_T, axis=1)
+        gv = _numpy.nansum(misfit_grad * data_grad_v)
 
         # Compiling into total gradient
         total_grad = _numpy.zeros_like(coordinates)
